@@ -5,6 +5,7 @@ import (
 	"io"
 	"path"
 	"regexp"
+	"sort"
 
 	"github.com/spf13/afero"
 	"google.golang.org/protobuf/encoding/protojson"
@@ -174,7 +175,15 @@ func OutputSplitApplications(
 	fileName string,
 	fs afero.Fs) error {
 	var err error = nil
-	for appName, app := range module.Apps {
+	// in name order: two applications can share a directory (A%2FB and A :: B are both <basePath>/A/B), and which
+	// of them the file ends up holding must not depend on map iteration order.
+	appNames := make([]string, 0, len(module.Apps))
+	for appName := range module.Apps {
+		appNames = append(appNames, appName)
+	}
+	sort.Strings(appNames)
+	for _, appName := range appNames {
+		app := module.Apps[appName]
 		fd, err := CreatePathForApplication(appName, basePath, app, fileName, fs)
 		if err != nil {
 			return err
